@@ -1,6 +1,7 @@
 package main
 
 import (
+	"os"
 	"fmt"
 	"go/token"
 	"go/types"
@@ -204,4 +205,193 @@ func c17r10(c *Ctx) {
 	}
 	c.Infof("lists of struct-typed map keys in the generation graph: %d, sorts of them examined: %d", nLists, nSorts)
 	c.Check("struct-keyed map key lists found (positive control)", token.NoPos, nLists >= 1, fmt.Sprintf("%d lists of struct-typed map keys found in the generation graph", nLists))
+}
+
+// C17-R11: no "one entry per computed key" while walking something in map order. Inside a range over a map, or over a list
+// that is in map order (a producer's result - maps.Values, UnsortedList, a krt List - or the result of a module function
+// that returns one unsorted: ServicesForWaypoint), a map write `index[f(elem)] = g(elem)` whose key is computed from the
+// element (it is not the ranged map's own key) keeps ONE element per key: when two elements share the key, which one stays -
+// the last with a plain write, the first under a "not yet present" guard - is decided by map iteration order. Decided in
+// the generation packages; a write whose value is a collection being extended (append, set insert) is not a selection.
+var c17r11Exceptions = map[string]string{}
+
+func c17r11(c *Ctx) {
+	p := c.P
+	entries := []*ssa.Function{
+		p.Func(pkgCore, "ConfigGeneratorImpl", "BuildClusters"), p.Func(pkgCore, "ConfigGeneratorImpl", "BuildDeltaClusters"),
+		p.Func(pkgCore, "ConfigGeneratorImpl", "BuildListeners"), p.Func(pkgCore, "ConfigGeneratorImpl", "BuildHTTPRoutes"),
+		p.Func(pkgCore, "ConfigGeneratorImpl", "BuildNameTable"), p.Func(pkgXds, "EdsGenerator", "buildEndpoints"),
+		p.Func(pkgXds, "DiscoveryServer", "pushXds"), p.Func(pkgXds, "DiscoveryServer", "pushDeltaXds"),
+		p.Func(pkgModel, "PushContext", "createNewContext"), p.Func(pkgModel, "PushContext", "updateContext"),
+		p.Func(pkgXds, "DiscoveryServer", "computeProxyState"),
+	}
+	reach := p.CG().Reach(entries, nil)
+	var fns []*ssa.Function
+	for fn := range reach {
+		fns = append(fns, fn)
+	}
+	sort.Slice(fns, func(i, j int) bool { return stableFnName(fns[i]) < stableFnName(fns[j]) })
+	d := deriveProducers(p, fns)
+	defer func() { c17Derived = nil }()
+	var dn []string
+	for n := range d {
+		dn = append(dn, n)
+	}
+	sort.Strings(dn)
+	c.Infof("functions returning a list in map order (derived producers): %v", dn)
+	c.Check("derived producers found (positive control)", token.NoPos, d["(*istio.io/istio/pilot/pkg/serviceregistry/ambient.index).ServicesForWaypoint"], "ambient index.ServicesForWaypoint (returns maps.Values unsorted) not recognised")
+	armed := map[string]bool{}
+	for _, pk := range []string{pkgEndpoints, pkgRoute, pkgXds, pkgCore, "pilot/pkg/networking/grpcgen", "pilot/pkg/networking/plugin/authn", "pilot/pkg/security/authz/builder", "pkg/dns/server", "pilot/pkg/networking/util", "pilot/pkg/networking/core/envoyfilter", "pilot/pkg/networking/core/extension", "pilot/pkg/networking/core/loadbalancer", "pilot/pkg/security/authn", "pilot/pkg/security/authz/model"} {
+		armed[istioMod+"/"+pk] = true
+	}
+	if os.Getenv("VERIF_C17R11_MODEL") != "" {
+		armed[istioMod+"/"+pkgModel] = true
+	}
+	mapsToo := os.Getenv("VERIF_C17R11_MAPS") != ""
+	nLoops := 0
+	for _, fn := range fns {
+		if !armed[funcPkgPath(fn)] || strings.HasSuffix(p.Fset.Position(fn.Pos()).Filename, "_test.go") || len(fn.Blocks) == 0 || isWrapperFn(fn) || isGenericOrigin(fn) {
+			continue
+		}
+		_, derivedOf, _ := unorderedListUses(fn)
+		for _, l := range rangeLoops(fn) {
+			if l.Over == nil || l.Body == nil || l.Header == nil {
+				continue
+			}
+			_, isMap := l.Over.Type().Underlying().(*types.Map)
+			if isMap && !mapsToo {
+				continue
+			}
+			if !isMap && !derivedOf(l.Over) {
+				continue
+			}
+			nLoops++
+			iter := map[ssa.Value]bool{}
+			var ownKey ssa.Value
+			if isMap {
+				for _, hi := range l.Header.Instrs {
+					if nx, ok := hi.(*ssa.Next); ok && nx.Referrers() != nil {
+						for _, r := range *nx.Referrers() {
+							if ex, ok := r.(*ssa.Extract); ok && ex.Index >= 1 {
+								iter[ex] = true
+								if ex.Index == 1 {
+									ownKey = ex
+								}
+							}
+						}
+					}
+				}
+			} else {
+				for _, b := range fn.Blocks {
+					if !l.Body.Dominates(b) {
+						continue
+					}
+					for _, ins := range b.Instrs {
+						if ia, ok := ins.(*ssa.IndexAddr); ok && ia.X == l.Over {
+							iter[ia] = true
+						}
+						if ix, ok := ins.(*ssa.Index); ok && ix.X == l.Over {
+							iter[ix] = true
+						}
+					}
+				}
+			}
+			derives := func(v ssa.Value) bool {
+				seen := map[ssa.Value]bool{}
+				var walk func(v ssa.Value, d int) bool
+				walk = func(v ssa.Value, d int) bool {
+					if v == nil || seen[v] || d > 10 {
+						return false
+					}
+					seen[v] = true
+					if iter[v] {
+						return true
+					}
+					switch x := v.(type) {
+					case *ssa.UnOp:
+						return walk(x.X, d+1)
+					case *ssa.FieldAddr:
+						return walk(x.X, d+1)
+					case *ssa.Field:
+						return walk(x.X, d+1)
+					case *ssa.Convert:
+						return walk(x.X, d+1)
+					case *ssa.ChangeType:
+						return walk(x.X, d+1)
+					case *ssa.MakeInterface:
+						return walk(x.X, d+1)
+					case *ssa.Extract:
+						return walk(x.Tuple, d+1)
+					case *ssa.Lookup:
+						return walk(x.Index, d+1) || walk(x.X, d+1)
+					case *ssa.Alloc:
+						// a local the element was copied into
+						if x.Referrers() != nil && l.Body.Dominates(x.Block()) {
+							for _, r := range *x.Referrers() {
+								if st, ok := r.(*ssa.Store); ok && st.Addr == ssa.Value(x) && walk(st.Val, d+1) {
+									return true
+								}
+							}
+						}
+						return false
+					case *ssa.Phi:
+						if !l.Body.Dominates(x.Block()) {
+							return false
+						}
+						for _, e := range x.Edges {
+							if walk(e, d+1) {
+								return true
+							}
+						}
+					case *ssa.Call:
+						for _, a := range x.Call.Args {
+							if walk(a, d+1) {
+								return true
+							}
+						}
+					}
+					return false
+				}
+				return walk(v, 0)
+			}
+			for _, b := range fn.Blocks {
+				if !l.Body.Dominates(b) {
+					continue
+				}
+				for _, ins := range b.Instrs {
+					mu, ok := ins.(*ssa.MapUpdate)
+					if !ok {
+						continue
+					}
+					if ownKey != nil && (mu.Key == ownKey) {
+						continue
+					}
+					if !derives(mu.Key) || !derives(mu.Value) {
+						continue
+					}
+					// a collection being extended is not a selection
+					if call, ok := mu.Value.(*ssa.Call); ok {
+						if isAppendCall(call) {
+							continue
+						}
+						if o := calleeObj(call); o != nil && o.Pkg() != nil && strings.HasSuffix(o.Pkg().Path(), "istio/pkg/util/sets") {
+							continue
+						}
+					}
+					// the map was made inside the body: a per-iteration temporary
+					if mm, ok := mu.Map.(*ssa.MakeMap); ok && l.Body.Dominates(mm.Block()) {
+						continue
+					}
+					key := stableFnName(fn) + "|" + describeRanged(l.Over)
+					if why, ok := c17r11Exceptions[key]; ok {
+						c.Infof("exception %s: %s", key, why)
+						continue
+					}
+					c.Check("no one-entry-per-computed-key while walking in map order: "+key, mu.Pos(), false,
+						"while walking "+describeRanged(l.Over)+" - which is in map iteration order - a map entry whose key is computed from the element receives a value taken from the element: when two elements share the key, which one the entry ends up with is decided by map iteration order, so what is generated from the map differs between generations and istiod instances for the same state")
+				}
+			}
+		}
+	}
+	c.Infof("loops over maps / map-ordered lists examined: %d", nLoops)
 }
